@@ -13,6 +13,11 @@ R10.5  per-rank dicts the executor adds to td['pre_exec'] / td['post_exec']
 R10.6  every command of the described pre/post lists stands alone in front of
        its `|| rp_error <section>` (command slot of a guard line = one element
        of the list; never the list, never elements joined other than by `&&`)
+R10.7  exit codes: the shell function rp_error which both scripts define ends
+       the script with a literal non-zero `exit` (never with a variable such
+       as RP_RET, `$?` of its echo, or `return`) and is defined before the
+       first guard line; the last statement of each script is `exit` with
+       the variable which captured `$?` of the executable / launch command
 (R10.3 also: the named environment is sourced before the environment exports)
 """
 
@@ -189,6 +194,9 @@ FMT_RE = re.compile(r'%(?:\([^)]*\))?[-#0 +]*\d*(?:\.\d+)?[sdrfi]')
 STR_PASS = {'rstrip', 'lstrip', 'strip', 'encode', 'decode', 'expandtabs'}
 
 
+ELEMS = '\0elements of '         # env key prefix: element boundaries of a list
+
+
 class Item:
     __slots__ = ('kind', 'node', 'text', 'vals')
 
@@ -215,6 +223,7 @@ class TextEval:
         self.sinks = []             # [seq] text handed to a file write
         self.tables = self._tables()
         self.subst = {}
+        self.lossy = []             # join calls whose separator got lost
         self.ldefs = local_defs(f.node)
         self.block(f.node.body, {})
 
@@ -362,7 +371,7 @@ class TextEval:
             f = e.func
             if isinstance(f, ast.Attribute) and f.attr == 'join' and \
                     len(e.args) == 1:
-                return self.seq(e.args[0], env)
+                return self.join(e, env)
             if isinstance(f, ast.Attribute) and f.attr in STR_PASS:
                 return self.seq(f.value, env)
             if isinstance(f, ast.Name) and f.id in ('str', 'list', 'tuple') \
@@ -373,12 +382,69 @@ class TextEval:
                 return []                       # the empty text / list
             if call_name(e).startswith('self.'):
                 return [Item('call', e)]
+            if isinstance(f, ast.Name) and f.id in self.f.nested:
+                return [Item('call', e)]        # a nested builder function
             return [Item('opaque', e)]
         if isinstance(e, ast.Attribute):
             r = self.pfmt(e)
             if r is not None:
                 return [Item('const', e, r[0].replace('%%', '%'))]
         return [Item('opaque', e)]
+
+    # -- sep.join(x): the elements of x with the separator between them
+    def join(self, e, env):
+        a = e.args[0]
+        sep = self._raw(e.func.value)
+        if sep == '':
+            return self.seq(a, env)
+        parts = self.elements(a, env)
+        if parts is not None and sep is not None:
+            out = []
+            for i, p in enumerate(parts):
+                if i:
+                    out.append(Item('const', e.func.value, sep))
+                out += p
+            return out
+        inner = self.seq(a, env)
+        if len(inner) == 1 and isinstance(inner[0], Item) and \
+                inner[0].kind == 'opaque':
+            # a list whose text this function does not put together: the
+            # joined string is one value (its multiplicity is Mult's business)
+            return [Item('opaque', e)]
+        self.lossy.append(e)
+        return inner
+
+    def elements(self, a, env):
+        """[seq, ..] one per element of the list-valued expression a, or None
+        if the element boundaries are not known"""
+        if isinstance(a, ast.Name) and a.id in self.subst:
+            return self.elements(self.subst[a.id], env)
+        if isinstance(a, (ast.List, ast.Tuple)):
+            if any(isinstance(x, (ast.Starred, ast.Tuple)) for x in a.elts):
+                return None
+            return [self.seq(x, env) for x in a.elts]
+        if isinstance(a, ast.Call) and isinstance(a.func, ast.Name) and \
+                a.func.id in ('list', 'tuple') and not a.keywords:
+            return [] if not a.args else self.elements(a.args[0], env) \
+                if len(a.args) == 1 else None
+        if isinstance(a, ast.Name):
+            sh = env.get(ELEMS + a.id)
+            if sh is not None and all(isinstance(p, list) for p in sh):
+                return list(sh)
+        if isinstance(a, (ast.ListComp, ast.GeneratorExp)) and \
+                len(a.generators) == 1:
+            g = a.generators[0]
+            if not g.ifs and isinstance(g.target, ast.Name) and \
+                    isinstance(g.iter, (ast.List, ast.Tuple)) and not any(
+                        isinstance(x, ast.Starred) for x in g.iter.elts):
+                parts = []
+                for x in g.iter.elts:
+                    old = self.subst
+                    self.subst = dict(old, **{g.target.id: x})
+                    parts.append(self.seq(a.elt, env))
+                    self.subst = old
+                return parts
+        return None
 
     def comp(self, e, env):
         if len(e.generators) != 1:
@@ -423,24 +489,43 @@ class TextEval:
             return True
         if isinstance(s, ast.Assign):
             if len(s.targets) == 1 and isinstance(s.targets[0], ast.Name):
+                parts = self.elements(s.value, env)
                 env[s.targets[0].id] = self.seq(s.value, env)
+                if parts is None:
+                    env.pop(ELEMS + s.targets[0].id, None)
+                else:
+                    env[ELEMS + s.targets[0].id] = parts
             else:
                 for t in s.targets:
                     for x in stores_in_target(t):
                         env.pop(x, None)
+                        env.pop(ELEMS + x, None)
             self.calls_of(s.value, env)
             return False
         if isinstance(s, ast.AnnAssign) and isinstance(s.target, ast.Name) \
                 and s.value is not None:
+            parts = self.elements(s.value, env)
             env[s.target.id] = self.seq(s.value, env)
+            if parts is None:
+                env.pop(ELEMS + s.target.id, None)
+            else:
+                env[ELEMS + s.target.id] = parts
             return False
         if isinstance(s, ast.AugAssign):
             if isinstance(s.target, ast.Name) and isinstance(s.op, ast.Add):
                 n = s.target.id
+                old = env.get(ELEMS + n)
+                parts = self.elements(s.value, env) if old is not None \
+                    else None
                 env[n] = env.get(n, [Item('opaque', s.target)]) + \
                     self.seq(s.value, env)
+                if parts is None:
+                    env.pop(ELEMS + n, None)
+                else:
+                    env[ELEMS + n] = old + parts
             elif isinstance(s.target, ast.Name):
                 env[s.target.id] = [Item('opaque', s)]
+                env.pop(ELEMS + s.target.id, None)
             return False
         if isinstance(s, ast.Expr):
             self.calls_of(s.value, env)
@@ -507,12 +592,23 @@ class TextEval:
             if isinstance(fn, ast.Attribute) and isinstance(fn.value, ast.Name) \
                     and fn.value.id in env and c.args:
                 n = fn.value.id
+                sh = env.get(ELEMS + n)
                 if fn.attr == 'append':
-                    env[n] = env[n] + self.seq(c.args[0], env)
+                    one = self.seq(c.args[0], env)
+                    env[n] = env[n] + one
+                    if sh is not None:
+                        env[ELEMS + n] = sh + [one]
                 elif fn.attr == 'extend':
+                    parts = self.elements(c.args[0], env) \
+                        if sh is not None else None
                     env[n] = env[n] + self.seq(c.args[0], env)
+                    if parts is None:
+                        env.pop(ELEMS + n, None)
+                    else:
+                        env[ELEMS + n] = sh + parts
                 elif fn.attr == 'insert':
                     env[n] = [Item('opaque', c)]
+                    env.pop(ELEMS + n, None)
             if isinstance(fn, ast.Attribute) and fn.attr in ('write',
                                                              'writelines') \
                     and c.args:
@@ -1181,6 +1277,12 @@ def starts(prefix, strip=False):
     return pred
 
 
+def exit_stmt(it):
+    """the piece of text starts with an `exit` statement (R10.7 decides what
+    the script exits with)"""
+    return re.match(r'exit(\s|$)', text_of(it)) is not None
+
+
 def script_items(prog, f):
     T = TextEval(prog, f)
     its = T.items()
@@ -1256,7 +1358,7 @@ def r10_3(prog, rep, rid='R10.3'):
             ('pre_exec',  has_call('_get_prep_exec', 'pre_exec', prog, f)),
             ('exec',      has_call('_get_exec')),
             ('post_exec', has_call('_get_prep_exec', 'post_exec', prog, f)),
-            ('exit',      starts('exit $RP_RET'))]
+            ('exit',      exit_stmt)]
     sections(prog, rep, rid, f, spec, 'exec script')
     Lf = Leaves(f.node, rename=task_rename(f))
     for c in calls_in(f.node):
@@ -1282,7 +1384,7 @@ def r10_3(prog, rep, rid='R10.3'):
             ('launch',       has_call('_get_launch')),
             ('post_launch',  has_call('_get_prep_launch', 'post_launch', prog,
                                       f)),
-            ('exit',         starts('exit $RP_RET'))]
+            ('exit',         exit_stmt)]
     T, its = sections(prog, rep, rid, f, spec, 'launch script')
     Lf = Leaves(f.node, rename=task_rename(f))
     for it, pa in its:
@@ -1970,9 +2072,10 @@ def flatten_add(e):
 
 class Mult:
 
-    def __init__(self, prog, f, env=None, depth=0, memo=None):
+    def __init__(self, prog, f, env=None, depth=0, memo=None, consts=None):
         self.prog, self.f, self.depth = prog, f, depth
         self.env = env or {}
+        self.consts = consts or {}  # parameter -> constant text it is bound to
         self.memo = memo if memo is not None else {}
         self.params = set(f.params)
         self.defs = {}
@@ -2123,6 +2226,8 @@ class Mult:
             if len(ds) == 1 and ds[0][0] == 'assign' and \
                     e.id not in self.params:
                 return self.const_text(ds[0][1])
+            if not ds and e.id in self.params and e.id in self.consts:
+                return self.consts[e.id]
         if isinstance(e, (ast.Name, ast.Attribute)):
             v = self.prog.fold(self.f.module, e, self.f.cls)
             return v if isinstance(v, str) else None
@@ -2382,6 +2487,40 @@ class Mult:
                     env[k.arg] = frozenset(t)
         return env
 
+    def param_consts(self, callee, c):
+        """{parameter of callee: constant text} for the arguments of call c
+        (and the defaults of the parameters it leaves out) which are
+        constant strings"""
+        a = callee.node.args
+        ps = [x.arg for x in a.posonlyargs + a.args]
+        dflt = dict(zip(ps[len(ps) - len(a.defaults):], a.defaults))
+        dflt.update({x.arg: d for x, d in zip(a.kwonlyargs, a.kw_defaults)
+                     if d is not None})
+        if ps and ps[0] in ('self', 'cls') and not is_static(callee):
+            ps = ps[1:]
+        given = {}
+        for i, x in enumerate(c.args):
+            if isinstance(x, ast.Starred):
+                return {}
+            if i < len(ps):
+                given[ps[i]] = x
+        for k in c.keywords:
+            if k.arg is None:
+                return {}
+            given[k.arg] = k.value
+        out = {}
+        for name in set(ps) | set(dflt):
+            if name in given:
+                t = self.const_text(given[name])
+            elif name in dflt and isinstance(dflt[name], ast.Constant) and \
+                    isinstance(dflt[name].value, str):
+                t = dflt[name].value
+            else:
+                t = None
+            if t is not None:
+                out[name] = t
+        return out
+
     def returns(self, callee, c, seen):
         env = self.param_env(callee, c, seen)
         if not env:
@@ -2553,7 +2692,7 @@ def sig_env(prog, f):
     return out
 
 
-def guard_lines(prog, rep, rid, f, env, memo, stack=()):
+def guard_lines(prog, rep, rid, f, env, memo, stack=(), consts=None):
     """decide every line of the text of f which holds described commands;
     returns the number of such lines (those of the helpers which build whole
     lines for f are counted per call: extracting a helper does not change the
@@ -2565,18 +2704,22 @@ def guard_lines(prog, rep, rid, f, env, memo, stack=()):
     T = TextEval(prog, f)
     if not T.returns and not T.sinks:
         raise AnalysisError('UNRECOGNISED-IDIOM %s: returns no text' % f.where)
-    M = Mult(prog, f, env, memo=memo)
+    M = Mult(prog, f, env, memo=memo, consts=consts)
     n = 0
-    for c in calls_in(f.node):
-        # (TextEval reads `sep.join([a, b])` as a + b)
-        if isinstance(c.func, ast.Attribute) and c.func.attr == 'join' and \
-                len(c.args) == 1 and isinstance(c.args[0], (ast.List,
-                                                            ast.Tuple)) \
-                and M.const_text(c.func.value) != '' and \
-                any(derived(M.ev(x)) for x in c.args[0].elts):
-            raise AnalysisError('UNRECOGNISED-IDIOM %s: `%s` puts described '
-                                'commands into a joined list literal'
-                                % (f.where, short(c, 60)))
+
+    def blank(p):
+        """white space only: constant text, or a value which is that"""
+        if p[0] == 't':
+            return not p[1].strip()
+        t = M.const_text(p[1]) if p[0] == 'v' else None
+        return t is not None and not t.strip()
+
+    for c in T.lossy:
+        # (the text tree has the elements of this join without the separator)
+        if derived(M.ev(c.args[0])) or derived(M.ev(c)):
+            raise AnalysisError('UNRECOGNISED-IDIOM %s: `%s` joins described '
+                                'commands with a separator the checker lost '
+                                'track of' % (f.where, short(c, 60)))
 
     def carries(p):
         if p[0] in ('v', 'c'):
@@ -2596,7 +2739,7 @@ def guard_lines(prog, rep, rid, f, env, memo, stack=()):
                        else '{%s}' % short(p[1], 40) for p in line)[:120]
 
     for line in text_lines(T.script(), f, M):
-        solid = [p for p in line if p[0] != 't' or p[1].strip()]
+        solid = [p for p in line if not blank(p)]
         if len(solid) == 1 and solid[0][0] == 'c':
             # a helper which returns whole lines: its text is decided there
             c = solid[0][1]
@@ -2606,7 +2749,8 @@ def guard_lines(prog, rep, rid, f, env, memo, stack=()):
                 sub = M.param_env(callee, c, frozenset())
                 if sub and callee.where not in stack:
                     n += guard_lines(prog, rep, rid, callee, sub, memo,
-                                     stack + (f.where,))
+                                     stack + (f.where,),
+                                     M.param_consts(callee, c))
                 continue
         cmds = [i for i, p in enumerate(line) if carries(p)]
         if not cmds:
@@ -2641,8 +2785,7 @@ def guard_lines(prog, rep, rid, f, env, memo, stack=()):
             unrec(line, 'after the failure guard')
         G = [p for p in line[:g[0]]] + [('t', line[g[0]][1][:g[1]])]
         first, last = cmds[0], cmds[-1]
-        wrapped = any(p[0] != 't' or p[1].strip()
-                      for p in G[:first] + G[last + 1:])
+        wrapped = any(not blank(p) for p in G[:first] + G[last + 1:])
         bad, seps = [], []
         for a, b in zip(cmds, cmds[1:]):
             if any(p[0] != 't' for p in G[a + 1:b]):
@@ -2714,6 +2857,592 @@ def r10_6(prog, rep, rid='R10.6'):
                  guard_lines(prog, rep, rid, f, sig_env(prog, f), memo))
 
 
+
+# ------------------------------------------------------------------------------
+# R10.7  exit codes: the error path and the end of the scripts
+#
+# "the script's exit code is the executable's exit code unless a pre/post
+# command failed" rests on two cooperating pieces of generated shell text:
+#
+#   * every guard line reads `<cmd> || rp_error <section>`; the shell function
+#     `rp_error` (defined in both scripts) must END THE SCRIPT WITH A STATUS
+#     WHICH CANNOT BE 0: `exit <literal n, n % 256 != 0>`.  `exit $RP_RET` /
+#     `exit ${RP_RET:-1}` is 0 once the executable has succeeded, a bare `exit`
+#     or `exit $?` after the `echo` is the status of the echo, `return` hands
+#     control back to the line after the failed command;
+#   * the last statement of each script is `exit $V` with V the variable which
+#     captured `$?` right after the executable / the launch command.
+#
+# The shell text is modelled, not matched: the text of each script is the
+# TextEval tree of its writer with the builders it calls expanded (known text,
+# holes for values, markers where a loop or an alternative begins and ends).
+# Function bodies are split into simple statements by a small shell scanner
+# (quotes, ${..}, $(..), comments, `;` and newline); control flow inside
+# `rp_error` stops the analysis (UNRECOGNISED-IDIOM).
+#
+HOLE, OPAQ, OPEN, CLOSE = '\0', '\3', '\1', '\2'
+SH_RESERVED = {'if', 'then', 'else', 'elif', 'fi', 'case', 'esac', 'for',
+               'while', 'until', 'do', 'done', '{', '}', '(', ')', '!', '[[',
+               'function', 'select', 'time', 'coproc'}
+SH_BENIGN = {'echo', 'printf', ':', 'true', 'date', 'sleep', 'touch', 'sync',
+             'logger', 'cat', 'ls', 'pwd', 'test', '[', 'export', 'local',
+             'unset', 'readonly', 'set'}
+SH_ASSIGN = re.compile(r'^([A-Za-z_][A-Za-z0-9_]*)=(.*)$', re.S)
+SH_FUNC = re.compile(r'(?:^|(?<=[\n;]))[ \t]*(?:function[ \t]+([A-Za-z_]\w*)'
+                     r'[ \t]*(?:\([ \t]*\))?|([A-Za-z_]\w*)[ \t]*\([ \t]*\))'
+                     r'[ \t\n]*\{')
+SH_VAR = re.compile(r'^\$(?:([A-Za-z_]\w*)|\{([A-Za-z_]\w*)'
+                    r'(?:(:?[-=+?])([^}]*))?\})$')
+
+
+class Flat:
+    """linear text of what a script builder writes / returns: `text`, and for
+    every chunk of it the function and the ast node it comes from"""
+
+    def __init__(self, prog, f):
+        self.prog = prog
+        self.root = f
+        self.parts = []             # (text, func, node)
+        self.lossy = set()          # functions whose text lost a separator
+        self._tev = {}
+        self._seq(self._T(f).script(), f, (f.where,))
+        self.text = ''.join(p[0] for p in self.parts)
+        self.starts = []
+        pos = 0
+        for t, g, n in self.parts:
+            self.starts.append(pos)
+            pos += len(t)
+
+    def _T(self, f):
+        if f.where not in self._tev:
+            self._tev[f.where] = TextEval(self.prog, f)
+            if self._tev[f.where].lossy:
+                self.lossy.add(f.where)
+        return self._tev[f.where]
+
+    def _put(self, text, f, node):
+        if text:
+            self.parts.append((text, f, node))
+
+    def _value(self, f, v, conv):
+        """text of a format value if it is a constant"""
+        if isinstance(v, ast.Name):
+            ds = local_defs(f.node).get(v.id, [])
+            if len(ds) == 1 and isinstance(ds[0], ast.Constant) and \
+                    v.id not in f.params:
+                v = ds[0]
+        c = v.value if isinstance(v, ast.Constant) else \
+            self.prog.fold(f.module, v, f.cls) \
+            if isinstance(v, (ast.Name, ast.Attribute)) else UNKNOWN
+        if isinstance(c, bool) or not isinstance(c, (str, int)):
+            return HOLE
+        try:
+            return conv % c
+        except (TypeError, ValueError):
+            return HOLE
+
+    def _seq(self, sq, f, stack):
+        for x in sq:
+            if not isinstance(x, Item):
+                subs = [x[1]] if x[0] == 'loop' else x[1]
+                for sub in subs:
+                    self._put(OPEN, f, None)
+                    self._seq(sub, f, stack)
+                    self._put(CLOSE, f, None)
+                continue
+            if x.kind == 'const':
+                self._put(x.text, f, x.node)
+            elif x.kind == 'fmt':
+                masked = x.text.replace('%%', '\4\4')
+                convs = list(FMT_RE.finditer(masked))
+                if len(convs) != len(x.vals):
+                    self._put(OPAQ, f, x.node)
+                    continue
+                pos, out = 0, ''
+                for m, v in zip(convs, x.vals):
+                    out += x.text[pos:m.start()].replace('%%', '%')
+                    out += self._value(f, v, m.group(0))
+                    pos = m.end()
+                self._put(out + x.text[pos:].replace('%%', '%'), f, x.node)
+            elif x.kind == 'call':
+                g = self.prog.resolve_call(f, x.node)
+                if g is not None and g.cls is not None and \
+                        g.where not in stack and len(stack) < 5:
+                    T = self._T(g)
+                    if T.returns or T.sinks:
+                        self._seq(T.script(), g, stack + (g.where,))
+                        continue
+                self._put(OPAQ, f, x.node)
+            else:
+                self._put(self._attr_text(f, x.node) or OPAQ, f, x.node)
+
+    def _attr_text(self, f, e):
+        """text (with holes) of `self.X` if X is a class level string which
+        no method rebinds: `_header = '#!%s\n' % _shell`"""
+        if not (isinstance(e, ast.Attribute) and isinstance(e.value, ast.Name)
+                and e.value.id == 'self' and f.cls is not None):
+            return None
+        val = None
+        for K in self.prog.mro(f.cls):
+            if any(e.attr in self_defs(m.node) for m in K.methods.values()):
+                return None
+            if val is None and e.attr in K.consts:
+                val = K.consts[e.attr]
+        if val is None:
+            return None
+
+        def text(v):
+            if isinstance(v, ast.Constant) and isinstance(v.value, str):
+                return v.value
+            if isinstance(v, ast.BinOp) and isinstance(v.op, ast.Add):
+                a, b = text(v.left), text(v.right)
+                return a + b if a is not None and b is not None else None
+            if isinstance(v, ast.BinOp) and isinstance(v.op, ast.Mod) and \
+                    isinstance(v.left, ast.Constant) and \
+                    isinstance(v.left.value, str):
+                return FMT_RE.sub(HOLE, v.left.value.replace(
+                    '%%', '\4')).replace('\4', '%')
+            return None
+        return text(val)
+
+    def owner(self, pos):
+        """(function, node) of the chunk which holds text offset pos"""
+        import bisect
+        i = max(bisect.bisect_right(self.starts, pos) - 1, 0)
+        return self.parts[i][1], self.parts[i][2]
+
+
+class ShStmt:
+    __slots__ = ('text', 'start', 'words', 'ops')
+
+    def __init__(self, text, start, words, ops):
+        self.text, self.start, self.words, self.ops = text, start, words, ops
+
+    @property
+    def compound(self):
+        return bool(self.ops) or self.words[0] in SH_RESERVED
+
+
+def sh_statements(s, i, until_brace=True):
+    """simple statements of the shell text s from offset i up to (not
+    including) the `}` which closes the function body; returns (statements,
+    offset behind the `}`) - offset None if the text ends before"""
+    out = []
+    n = len(s)
+    words, ops, cur, wstart, sstart = [], [], '', None, None
+    quote, depth = None, []
+
+    def end_word():
+        nonlocal cur, wstart
+        if cur:
+            words.append(cur)
+        cur, wstart = '', None
+
+    def end_stmt(pos):
+        nonlocal words, ops, sstart
+        end_word()
+        if words:
+            out.append(ShStmt(s[sstart:pos], sstart, words, ops))
+        words, ops, sstart = [], [], None
+
+    while i < n:
+        c = s[i]
+        if sstart is None and not c.isspace():
+            sstart = i
+        if quote == "'":
+            cur += c
+            if c == "'":
+                quote = None
+            i += 1
+            continue
+        if c == '\\' and i + 1 < n:
+            if s[i + 1] == '\n':
+                i += 2
+                continue
+            cur += s[i:i + 2]
+            i += 2
+            continue
+        if c == '$' and i + 1 < n and s[i + 1] in '{(':
+            depth.append('}' if s[i + 1] == '{' else ')')
+            cur += s[i:i + 2]
+            i += 2
+            continue
+        if depth and c == depth[-1]:
+            depth.pop()
+            cur += c
+            i += 1
+            continue
+        if depth and c == '(':
+            depth.append(')')
+            cur += c
+            i += 1
+            continue
+        if c == '`':
+            quote = None if quote == '`' else '`' if quote is None else quote
+            cur += c
+            i += 1
+            continue
+        if c == '"' and quote in (None, '"'):
+            quote = None if quote else '"'
+            cur += c
+            i += 1
+            continue
+        if quote or depth:
+            cur += c
+            i += 1
+            continue
+        if c == "'":
+            quote = "'"
+            cur += c
+            i += 1
+            continue
+        if c == '#' and not cur:
+            while i < n and s[i] != '\n':
+                i += 1
+            continue
+        if c in ' \t':
+            end_word()
+            i += 1
+            continue
+        if c in '\n;':
+            end_stmt(i)
+            i += 1
+            continue
+        if c in '&|':
+            redirect = (c == '&' and ((i and s[i - 1] in '<>') or
+                                      (i + 1 < n and s[i + 1] == '>')))
+            if not redirect:
+                ops.append(s[i:i + 2] if i + 1 < n and s[i + 1] == c else c)
+                end_word()
+                i += 2 if i + 1 < n and s[i + 1] == c else 1
+                continue
+        if c == '}' and until_brace and not cur and not words:
+            return out, i + 1
+        cur += c
+        i += 1
+    end_stmt(n)
+    return out, None
+
+
+def sh_functions(text):
+    """[(name, offset of the definition, body start, body end)] of the shell
+    functions defined in text"""
+    out = []
+    pos = 0
+    while True:
+        m = SH_FUNC.search(text, pos)
+        if m is None:
+            return out
+        _, end = sh_statements(text, m.end())
+        out.append((m.group(1) or m.group(2), m.start(), m.end(), end))
+        pos = end if end is not None else m.end()
+
+
+def sh_unquote(w):
+    if len(w) >= 2 and w[0] == w[-1] and w[0] in '"\'':
+        return w[1:-1]
+    return w
+
+
+def sh_status_word(w):
+    """classify the argument of exit / the right side of an assignment:
+    ('int', n) | ('status',) `$?` | ('var', name, op, default) | None"""
+    w = sh_unquote(w)
+    if re.match(r'^\d+$', w):
+        return ('int', int(w))
+    if w in ('$?', '${?}'):
+        return ('status',)
+    m = SH_VAR.match(w)
+    if m:
+        return ('var', m.group(1) or m.group(2), m.group(3), m.group(4))
+    return None
+
+
+def sh_assignments(text, var, skip=()):
+    """[(offset, right side)] of the assignments to var in text outside the
+    offset ranges `skip`"""
+    out = []
+    for m in re.finditer(r'(?:^|(?<=[\s;&|({]))(?:(?:export|local|readonly|'
+                         r'declare)[ \t]+)?%s=([^\s;]*)' % re.escape(var),
+                         text):
+        if not any(a <= m.start() < (b if b is not None else len(text))
+                   for a, b in skip):
+            out.append((m.start(), m.group(1)))
+    return out
+
+
+EXIT_HISTORY = ("post_exec=['test -f output.dat'] (or a per-rank entry, or a "
+                'post_launch command) which fails after the executable exited '
+                'with 0: the guard calls rp_error, the script ends with exit '
+                'code 0, Popen sees 0 and the task is DONE although a post '
+                'command failed')
+
+
+def decide_rp_error(rep, rid, F, name, body, end, scripts):
+    """the body of one definition of the shell function rp_error"""
+    text = F.text
+    g, node = F.owner(body)
+    where = '%s (shell function `%s` in the text of %s)' % (
+        g.where, name, g.qual)
+    if end is None:
+        raise AnalysisError('UNRECOGNISED-IDIOM %s: the body of `%s` is not '
+                            'closed in the text of this builder' % (g.where,
+                                                                    name))
+    region = text[body:end]
+    if OPEN in region or CLOSE in region or g.where in F.lossy:
+        raise AnalysisError('UNRECOGNISED-IDIOM %s: the body of `%s` is put '
+                            'together conditionally / in a loop / by a join '
+                            'the checker cannot follow' % (g.where, name))
+    stmts, _ = sh_statements(text, body)
+    nonzero, zero, assigned = set(), set(), set()
+    decisive = None
+    for k, st in enumerate(stmts):
+        w0 = st.words[0]
+        if OPAQ in st.text or HOLE in w0:
+            raise AnalysisError('UNRECOGNISED-IDIOM %s: statement `%s` of '
+                                '`%s` is not constant text' % (
+                                    g.where, st.text[:40], name))
+        if st.compound:
+            if any(w in ('exit', 'return', 'exec', 'kill') for w in st.words) \
+                    or w0 in SH_RESERVED:
+                raise AnalysisError('UNRECOGNISED-IDIOM %s: control flow '
+                                    'inside `%s` (`%s`)' % (g.where, name,
+                                                            st.text[:40]))
+            continue
+        ws = st.words[1:] if w0 in ('local', 'export', 'readonly') and \
+            len(st.words) > 1 else st.words
+        m = SH_ASSIGN.match(ws[0])
+        if m and len(ws) == 1:
+            v = sh_status_word(m.group(2))
+            assigned.add(m.group(1))
+            nonzero.discard(m.group(1))
+            zero.discard(m.group(1))
+            if v and v[0] == 'int':
+                (nonzero if v[1] % 256 else zero).add(m.group(1))
+            elif v and v[0] == 'status' and k == 0:
+                nonzero.add(m.group(1))     # status of the failed command
+            continue
+        if w0 in ('exit', 'return'):
+            decisive = (k, st)
+            break
+        if w0 not in SH_BENIGN:
+            raise AnalysisError('UNRECOGNISED-IDIOM %s: `%s` runs `%s`, which '
+                                'may end the script itself' % (g.where, name,
+                                                               st.text[:40]))
+    g, node = F.owner(decisive[1].start if decisive else body)
+
+    def bad(construct, why):
+        rep.bad(rid, g, construct, 'the shell function `%s` which %s '
+                'generates for both task scripts %s.  Every pre/post command '
+                'is guarded by `<cmd> || %s <section>`: with this body a '
+                'failing command does not end the script with a non-zero '
+                'exit code' % (name, g.qual, why, name),
+                g.loc(node) if node is not None else g.loc(),
+                history=EXIT_HISTORY)
+
+    if decisive is None:
+        bad('rp_error:no-exit', 'has no `exit` statement: it returns to the '
+            'line after the failed command and the script carries on')
+        return
+    k, st = decisive
+    stext = ' '.join(st.words)
+    if st.words[0] == 'return':
+        bad('rp_error:return', 'ends with `%s` instead of `exit`: the '
+            'function returns, the script carries on with the line after the '
+            'failed command (a failing pre_exec no longer prevents the '
+            'executable)' % stext)
+        return
+    if len(st.words) > 2:
+        raise AnalysisError('UNRECOGNISED-IDIOM %s: `%s` in `%s`'
+                            % (g.where, stext, name))
+    arg = sh_status_word(st.words[1]) if len(st.words) == 2 else ('status',)
+    if arg is None:
+        raise AnalysisError('UNRECOGNISED-IDIOM %s: exit status `%s` of `%s`'
+                            % (g.where, st.words[1], name))
+    if arg[0] == 'int':
+        if arg[1] % 256:
+            rep.ok(rid, g, '`%s` ends the script with the constant non-zero '
+                   'status %d' % (name, arg[1]), g.loc(node))
+        else:
+            bad('rp_error:exit-zero', 'ends with `%s`: status 0' % stext)
+        return
+    if arg[0] == 'status':
+        if k == 0:
+            rep.ok(rid, g, '`%s` ends the script with the status of the '
+                   'failed command (`%s` is its first statement)'
+                   % (name, stext), g.loc(node))
+        else:
+            bad('rp_error:exit-status', 'ends with `%s` after `%s`: the '
+                'status is that of the statement before it (0 when the %s '
+                'succeeds), not that of the failed command'
+                % (stext, stmts[k - 1].text.strip()[:40],
+                   stmts[k - 1].words[0]))
+        return
+    var, op, dflt = arg[1], arg[2], arg[3]
+    if var in assigned:
+        if var in nonzero and op in (None, ':-', '-', ':=', '='):
+            rep.ok(rid, g, '`%s` ends the script with $%s, which it set to a '
+                   'non-zero status itself' % (name, var), g.loc(node))
+        elif var in zero:
+            bad('rp_error:exit-zero', 'ends with `%s` and sets %s to 0'
+                % (stext, var))
+        else:
+            raise AnalysisError('UNRECOGNISED-IDIOM %s: `%s` in `%s`: value '
+                                'of %s' % (g.where, stext, name, var))
+        return
+    # a variable of the surrounding script: what do the scripts put there?
+    sets = []
+    for S, skip in scripts:
+        for off, rhs in sh_assignments(S.text, var, skip):
+            v = sh_status_word(rhs)
+            if not (v and v[0] == 'int' and v[1] % 256):
+                sets.append((S, off, rhs))
+    if not sets:
+        raise AnalysisError('UNRECOGNISED-IDIOM %s: `%s` in `%s`: the scripts '
+                            'never set %s' % (g.where, stext, name, var))
+    S, off, rhs = sets[0]
+    sg, _ = S.owner(off)
+    bad('rp_error:exit-var:%s' % var, 'ends with `%s`: the exit status of the '
+        'error path is the shell variable %s, which the script sets by `%s=%s` '
+        '(text of %s) - it is 0 after a successful executable%s' % (
+            stext, var, var, rhs, sg.qual,
+            '; the default only applies while the variable is unset'
+            if op else ''))
+
+
+def r10_7(prog, rep, rid='R10.7'):
+    rep.rule(rid, 'exit codes: the shell function rp_error of the generated '
+             'scripts is defined before the first guard line and ends the '
+             'script with a status which cannot be 0 (a literal non-zero '
+             '`exit`, not a variable such as RP_RET); the last statement of '
+             'each script is `exit` with the variable which captured `$?` of '
+             'the executable / launch command', minimum=5)
+    flats = []
+    for name in ('_create_exec_script', '_create_launch_script'):
+        f = prog.method(EXE[0], EXE[1], name)
+        rep.saw(f)
+        F = Flat(prog, f)
+        if not F.text.strip(HOLE + OPAQ + OPEN + CLOSE):
+            raise AnalysisError('UNRECOGNISED-IDIOM %s: cannot tell which '
+                                'text this function writes' % f.where)
+        funcs = sh_functions(F.text)
+        flats.append((F, f, funcs))
+    scripts = [(F, [(b, e) for _, _, b, e in funcs]) for F, f, funcs in flats]
+    done = set()
+    for F, f, funcs in flats:
+        what = 'exec script' if 'exec' in f.name else 'launch script'
+        skip = [(b, e) for _, _, b, e in funcs]
+        text = F.text
+        # ---- rp_error: defined before its first use, and what it ends with
+        defs = [x for x in funcs if x[0] == 'rp_error']
+        uses = [m.start() for m in GUARD_RE.finditer(text)
+                if not any(a <= m.start() < (b or len(text)) for a, b in skip)]
+        if not uses:
+            raise AnalysisError('UNRECOGNISED-IDIOM %s: no `|| rp_error` '
+                                'guard line in the text of the %s' % (f.where,
+                                                                      what))
+        first = uses[0]
+        if not defs:
+            if F.lossy:
+                raise AnalysisError('UNRECOGNISED-IDIOM %s: no definition of '
+                                    'rp_error found, and %s join(s) text with '
+                                    'a separator the checker lost track of'
+                                    % (f.where, sorted(F.lossy)))
+            if OPAQ in text[:first]:
+                raise AnalysisError('UNRECOGNISED-IDIOM %s: no definition of '
+                                    'rp_error in the text of the %s the '
+                                    'checker can see' % (f.where, what))
+            rep.bad(rid, f, '%s:rp_error:undefined' % what,
+                    'the %s written by %s guards its pre/post commands with '
+                    '`|| rp_error <section>` but never defines the shell '
+                    'function rp_error: bash reports `rp_error: command not '
+                    'found` and carries on' % (what, f.qual), f.loc(),
+                    history="pre_launch=['false'] / pre_exec=['false']: the "
+                    'executable runs although the command before it failed, '
+                    'the script exits with the exit code of the executable')
+        if defs:
+            rep.check(min(d[1] for d in defs) < first, rid, f,
+                      '%s: rp_error is defined before the first guard line' % what,
+                      construct='%s:rp_error:order' % what,
+                      message='the %s written by %s defines the shell function '
+                      'rp_error only after the first `|| rp_error` line: the '
+                      'first failing command finds no such function and the '
+                      'script carries on' % (what, f.qual), loc=f.loc(),
+                      history="launcher env / pre_launch / pre_exec command "
+                      'fails: `rp_error: command not found`, the executable runs')
+        for name, at, body, end in defs:
+            g, node = F.owner(body)
+            key = (g.where, id(node))
+            if key in done:
+                continue
+            done.add(key)
+            decide_rp_error(rep, rid, F, name, body, end, scripts)
+        # ---- the end of the script
+        stmts, _ = sh_statements(text, 0, until_brace=False)
+        marks = [i for i, c in enumerate(text) if c in (OPEN, CLOSE)]
+        exits = []
+        for st in stmts:
+            if st.words[0].strip(OPEN + CLOSE + OPAQ + HOLE) != 'exit':
+                continue
+            if any(a <= st.start < (b or len(text)) for a, b in skip):
+                continue
+            at = st.start + st.text.index('exit')
+            d = sum(1 if text[i] == OPEN else -1 for i in marks if i < at)
+            exits.append((st, d))
+        if not exits:
+            rep.bad(rid, f, '%s:exit:missing' % what, 'the %s written by %s '
+                    'has no `exit` statement of its own: its exit code is '
+                    'that of its last command (a profile line), not that of '
+                    'the executable' % (what, f.qual), f.loc(),
+                    history='the executable exits with 3: the script exits '
+                    'with 0 and the task is DONE')
+            continue
+        if len(exits) > 1 or exits[-1][1] != 0 or exits[-1][0].compound or \
+                len(exits[-1][0].words) > 2:
+            raise AnalysisError('UNRECOGNISED-IDIOM %s: `exit` statements of '
+                                'the %s: %s' % (f.where, what, [
+                                    st.text[:30] for st, d in exits]))
+        st = exits[-1][0]
+        g, node = F.owner(st.start)
+        stext = ' '.join(st.words)
+        arg = sh_status_word(st.words[1]) if len(st.words) == 2 \
+            else ('status',)
+        if arg is None:
+            raise AnalysisError('UNRECOGNISED-IDIOM %s: `%s` of the %s'
+                                % (f.where, stext, what))
+        lost = ('the executable exits with 3: the %s exits with another code '
+                '(0: the task is DONE; constant non-zero: every task FAILED)'
+                % what)
+        if arg[0] != 'var':
+            rep.bad(rid, g, '%s:exit' % what, 'the %s ends with `%s`, not '
+                    'with the variable which captured `$?` of the %s: the '
+                    'exit code of the executable is lost' % (
+                        what, stext, 'executable' if 'exec' in what
+                        else 'launch command'),
+                    g.loc(node) if node is not None else g.loc(),
+                    history=lost)
+            continue
+        var = arg[1]
+        sets = sh_assignments(text, var, skip)
+        caps = [(o, r) for o, r in sets if sh_status_word(r) == ('status',)]
+        if len(caps) != 1 or any(o > st.start for o, r in sets):
+            raise AnalysisError('UNRECOGNISED-IDIOM %s: the %s ends with `%s` '
+                                'and sets %s by %s' % (
+                                    f.where, what, stext, var,
+                                    [r for o, r in sets] or 'nothing'))
+        late = [(o, r) for o, r in sets if o > caps[0][0]]
+        rep.check(not late, rid, g, '%s: ends with `%s`, %s holds `$?` taken '
+                  'after the %s' % (what, stext, var, 'executable' if 'exec'
+                                    in what else 'launch command'),
+                  construct='%s:exit' % what,
+                  message='the %s ends with `%s`, but after `%s=$?` the text '
+                  'sets %s again (`%s=%s`): the exit code of the executable '
+                  'is overwritten' % (what, stext, var, var, var,
+                                      late[0][1] if late else ''),
+                  loc=g.loc(node) if node is not None else g.loc(),
+                  history=lost)
+
+
 # ------------------------------------------------------------------------------
 #
 def run(prog, rep, tier):
@@ -2734,7 +3463,12 @@ def run(prog, rep, tier):
         '_get_prep_exec; each script line which holds a described pre/post '
         'command (global and per-rank branch of _get_prep_exec, '
         '_get_prep_launch, helpers which build such lines) has the form '
-        '`<one element of the list> || rp_error <section>`.')
+        '`<one element of the list> || rp_error <section>`; the generated '
+        'shell function rp_error is defined before the first guard line and '
+        'its body (modelled as shell statements) ends the script with a '
+        'status which cannot be 0; each script ends with `exit $V`, V being '
+        'set only by the `V=$?` which follows the executable / the launch '
+        'command.')
     rep.undecided = ('what bash does with the generated text: `$`, back-ticks '
         'and globs inside sh_quote\'d words (library code), the unquoted '
         'executable and pre/post commands (they are shell text by contract), '
@@ -2748,6 +3482,9 @@ def run(prog, rep, tier):
         'reg[\'a.b.c\']',
         'script text is built by `x += piece` / `x = x + piece` on one '
         'accumulator per function (other shapes stop with UNRECOGNISED-IDIOM)',
+        'R10.7 reads the generated text as POSIX shell: statements end at '
+        'newline / `;` outside quotes, ${..} and $(..); a function body ends '
+        'at a `}` in command position; `set -e` is not in force',
     ]
     classes = factory_classes(prog)
     r10_1(prog, rep)
@@ -2756,6 +3493,7 @@ def run(prog, rep, tier):
     r10_4(prog, rep)
     r10_5(prog, rep)
     rep.attempt(r10_6, prog, rep)
+    rep.attempt(r10_7, prog, rep)
     if tier == 'thorough':
         # sweep: every launcher class of the package (not only the factory
         # table) and every executor class: argument quoting in get_exec
@@ -3060,6 +3798,106 @@ SILENT += [
         (_E, _PL, "        ret += ''.join(['%s || rp_error %s\\n' % (c, sig)\n                        for c in ru.as_list(td[sig])])\n")]),
     dict(name='guard site: command list read with td.get(sig)', edits=[
         (_E, "        entries         = ru.as_list(td[sig])\n", "        entries         = ru.as_list(td.get(sig))\n")]),
+]
+
+
+# ---- R10.7 (exit codes) and the recognisers of R10.3 / R10.5 on the
+# extract-method form of the rank loop (seeds C10-e, C10-r5)
+_X    = "        ret += '    exit 1\\n'\n"
+_FN   = "        ret  = '\\nrp_error() {\\n'\n        ret += '    echo \"$1 failed\" 1>&2\\n'\n        ret += '    exit 1\\n'\n        ret += '}\\n'\n"
+_EX_E = "        tmp += 'exit $RP_RET\\n'\n\n        fh = os.open"
+_EX_L = "            tmp += 'exit $RP_RET\\n'\n\n            tmp += self._separator"
+_DEFF = "    def _get_rp_funcs(self):\n"
+_RANK = "            for entry in entries:\n\n                if isinstance(entry, str):\n                    entry = {str(rank_id): entry}\n\n" + _PR
+
+
+def _seeded(name):
+    import os
+    here = os.path.dirname(os.path.dirname(os.path.dirname(
+        os.path.abspath(__file__))))
+    return os.path.join(here, 'seeded', name, 'patch.diff')
+
+
+_R5 = edits_from_patch(_seeded('C10-r5')) or []
+
+MUTATIONS += [
+    dict(name='R10.7 rp_error exits with ${RP_RET:-1} (seed C10-e)', rules=('R10.7',), edits=[
+        (_E, _X, "        ret += '    exit ${RP_RET:-1}\\n'\n")]),
+    dict(name='R10.7 rp_error exits with $RP_RET', rules=('R10.7',), edits=[
+        (_E, _X, "        ret += '    exit $RP_RET\\n'\n")]),
+    dict(name='R10.7 rp_error as a one-liner which exits with the quoted variable', rules=('R10.7',), edits=[
+        (_E, _FN, "        ret  = '\\nrp_error() { echo \"$1 failed\" 1>&2; exit \"${RP_RET:-1}\"; }\\n'\n")]),
+    dict(name='R10.7 rp_error exits with $? of its echo', rules=('R10.7',), edits=[
+        (_E, _X, "        ret += '    exit $?\\n'\n")]),
+    dict(name='R10.7 rp_error ends with a bare exit after the echo', rules=('R10.7',), edits=[
+        (_E, _X, "        ret += '    exit\\n'\n")]),
+    dict(name='R10.7 rp_error returns instead of exiting', rules=('R10.7',), edits=[
+        (_E, _X, "        ret += '    return 1\\n'\n")]),
+    dict(name='R10.7 rp_error only reports', rules=('R10.7',), edits=[
+        (_E, _X, "")]),
+    dict(name='R10.7 exec script ends with exit 0', rules=('R10.7',), edits=[
+        (_E, _EX_E, "        tmp += 'exit 0\\n'\n\n        fh = os.open")]),
+    dict(name='R10.7 launch script ends with exit $? of the profile line', rules=('R10.7',), edits=[
+        (_E, _EX_L, "            tmp += 'exit $?\\n'\n\n            tmp += self._separator")]),
+    dict(name='R10.7 launch script does not define rp_error', rules=('R10.7',), edits=[
+        (_E, "            tmp += self._get_rp_funcs()\n", "")]),
+    dict(name='R10.7 launch script defines rp_error after the pre_launch section', rules=('R10.7',), edits=[
+        (_E, "            tmp += self._get_rp_funcs()\n", ""),
+        (_E, "            tmp += self._get_prep_launch(task, sig='pre_launch')\n", "            tmp += self._get_prep_launch(task, sig='pre_launch')\n            tmp += self._get_rp_funcs()\n")]),
+    dict(name='R10.7 RP_RET reset after it captured the exit code of the executable', rules=('R10.7',), edits=[
+        (_E, "        ret += 'RP_RET=$?\\n'\n\n        return ret", "        ret += 'RP_RET=$?\\n'\n        ret += 'RP_RET=0\\n'\n\n        return ret")]),
+]
+
+MUTATIONS += [
+    dict(name='R10.6 two commands joined with `; ` by a literal join in front of one guard', rules=('R10.6',), edits=[
+        (_E, _PR, "                cmds = ru.as_list(entry.get(str(rank_id)))\n                if len(cmds) == 2:\n                    ret += '        ' + '; '.join([cmds[0], cmds[1]]) + ' || rp_error %s\\n' % sig\n                    continue\n                for cmd in cmds:\n                    ret += '        ' + cmd_template % (cmd, sig)\n")]),
+    dict(name='R10.6 per-rank commands joined with `; ` and concatenated with the guard', rules=('R10.6',), edits=[
+        (_E, _PR, "                cmds = ru.as_list(entry.get(str(rank_id)))\n                if cmds:\n                    ret += '        ' + '; '.join(cmds) + ' || rp_error %s\\n' % sig\n")]),
+]
+
+# (mutants of the extract-method form: the refactoring C10-r5 plus one edit)
+MUTATIONS += [] if not _R5 else [
+    dict(name='R10.3 extracted rank helper (C10-r5 form) looks every rank up under one key', rules=('R10.3',), edits=_R5 + [
+        (_E, "            cmds.extend(ru.as_list(entry.get(rank_key)))", "            cmds.extend(ru.as_list(entry.get('0')))")]),
+    dict(name='R10.5 extracted rank helper (C10-r5 form) is handed the int rank index', rules=('R10.5',), edits=_R5 + [
+        (_E, "self._get_rank_cmds(entries, str(rank_id))", "self._get_rank_cmds(entries, rank_id)")]),
+    dict(name='R10.6 extracted rank helper (C10-r5 form): commands of a rank joined in front of one guard', rules=('R10.6',), edits=_R5 + [
+        (_E, "            for cmd in self._get_rank_cmds(entries, str(rank_id)):\n                lines.append('        ' + self._guard_cmd(cmd, sig))\n",
+             "            lines.append('        ' + self._guard_cmd('; '.join(self._get_rank_cmds(entries, str(rank_id))), sig))\n")]),
+]
+
+SILENT += [
+    dict(name='exit site: rp_error as one string constant', edits=[
+        (_E, _FN, "        ret  = '\\nrp_error() {\\n    echo \"$1 failed\" 1>&2\\n    exit 1\\n}\\n'\n")]),
+    dict(name='exit site: rp_error as a one-line shell function', edits=[
+        (_E, _FN, "        ret  = '\\nrp_error() { echo \"$1 failed\" 1>&2; exit 1; }\\n'\n")]),
+    dict(name='exit site: lines of rp_error in a list literal joined by newline', edits=[
+        (_E, _FN, "        ret  = '\\n'.join(['', 'rp_error() {', '    echo \"$1 failed\" 1>&2', '    exit 1', '}', ''])\n")]),
+    dict(name='exit site: lines of rp_error appended to a list, one join', edits=[
+        (_E, _FN, "        lines = ['', 'rp_error() {']\n        lines.append('    echo \"$1 failed\" 1>&2')\n        lines.append('    exit 1')\n        lines += ['}', '']\n        ret = '\\n'.join(lines)\n")]),
+    dict(name='exit site: exit code through a local and %d', edits=[
+        (_E, _X, "        code = 1\n        ret += '    exit %d\\n' % code\n")]),
+    dict(name='exit site: text of rp_error from an extracted helper', edits=[
+        (_E, _FN, "        ret  = self._rp_error_func()\n"),
+        (_E, _DEFF, "    def _rp_error_func(self):\n        return '\\nrp_error() {\\n    echo \"$1 failed\" 1>&2\\n    exit 1\\n}\\n'\n\n" + _DEFF)]),
+    dict(name='exit site: a second shell helper defined only when profiling', edits=[
+        (_E, "        ret += '}\\n'\n\n        return ret\n\n\n    # --------------------------------------------------------------------------\n    #\n    def _get_prof",
+             "        ret += '}\\n'\n        if self._prof.enabled:\n            ret += '\\nrp_note() {\\n    echo \"$1\"\\n    return 0\\n}\\n'\n\n        return ret\n\n\n    # --------------------------------------------------------------------------\n    #\n    def _get_prof")]),
+    dict(name='exit site: scripts end with the quoted / braced variable', edits=[
+        (_E, _EX_E, "        tmp += 'exit \"$RP_RET\"\\n'\n\n        fh = os.open"),
+        (_E, _EX_L, "            tmp += 'exit ${RP_RET}\\n'\n\n            tmp += self._separator")]),
+    dict(name='rank site: commands of a rank collected by a helper which is handed str(rank_id)', edits=[
+        (_E, _RANK, "            for cmd in self._rank_cmds(entries, str(rank_id)):\n                ret += '        ' + cmd_template % (cmd, sig)\n"),
+        (_E, _DEF, "    def _rank_cmds(self, entries, key):\n        out = []\n        for entry in entries:\n            if isinstance(entry, str):\n                out.append(entry)\n            else:\n                out.extend(ru.as_list(entry.get(key)))\n        return out\n\n" + _DEF)]),
+    dict(name='guard site: guard line as pieces joined by the empty string', edits=[
+        (_E, _PR, "                for cmd in ru.as_list(entry.get(str(rank_id))):\n                    ret += ''.join(['        ', cmd, ' || rp_error ', sig, '\\n'])\n")]),
+    dict(name='guard site: guard line as words joined by a blank', edits=[
+        (_E, _PR, "                for cmd in ru.as_list(entry.get(str(rank_id))):\n                    ret += ' '.join(['       ', cmd, '|| rp_error', sig]) + '\\n'\n")]),
+    dict(name='guard site: two commands chained with && by a literal join', edits=[
+        (_E, _PR, "                cmds = ru.as_list(entry.get(str(rank_id)))\n                if len(cmds) == 2:\n                    ret += '        ' + ' && '.join([cmds[0], cmds[1]]) + ' || rp_error %s\\n' % sig\n                    continue\n                for cmd in cmds:\n                    ret += '        ' + cmd_template % (cmd, sig)\n")]),
+    dict(name='rank site: indent built by a second range() loop', edits=[
+        (_E, "        ret += 'case \"$RP_RANK\" in\\n'\n", "        pad  = ''.join([' ' for _ in range(8)])\n        ret += 'case \"$RP_RANK\" in\\n'\n"),
+        (_E, "            ret += '        ;;\\n'\n", "            ret += pad + ';;\\n'\n")]),
 ]
 
 SILENT += _corpus()
